@@ -14,8 +14,10 @@
 (* converter construction sorted by (count, currency) descending, per-row   *)
 (* conversion with half-even quantisation, NULL for a zero number).  TLC    *)
 (* proves that every result of the mechanism is accepted by Part 1.         *)
-(* InvNull = "raise" is the mechanism as shipped (a NULL cell in an         *)
-(* Inventory column raises AttributeError), "skip" the repaired one.  Mut   *)
+(* InvNull = "skip" is the mechanism as the code has it since fix e9990d2   *)
+(* (None skipped in the census, NULL from the converter); "raise" is the    *)
+(* mechanism as shipped before that fix (a NULL cell in an Inventory column *)
+(* raises AttributeError), kept as documentation and non-vacuity run.  Mut  *)
 (* selects deliberately broken mechanisms for the non-vacuity runs.         *)
 (*                                                                         *)
 (* Abstract values (type-uniform so that TLC never compares unlike kinds):  *)
@@ -202,7 +204,7 @@ CONSTANTS
     FmtChoices,   \* subset of {0, 1}: dformat absent / given
     Q,            \* the formatter's precisions
     CurSeq,       \* all currencies, in ascending string order (the tie-break of sorted())
-    InvNull,      \* "raise" (as shipped) | "skip" (repaired: None skipped in census and converter)
+    InvNull,      \* "skip" (the code: None skipped in census and converter) | "raise" (as shipped before fix e9990d2)
     Mut           \* "none" | "cap2" | "asc" | "poscost" | "noquant" | "lot1"  (broken mechanisms, non-vacuity)
 
 VARIABLES
